@@ -386,6 +386,11 @@ fn main() {
                     if workers == 4 && w.units > 3 {
                         continue;
                     }
+                    // quick: the 3-worker full search stops at 3 units (1944 schedules per
+                    // workload); 4 units x 3 workers (4860 each) is thorough-only
+                    if r.quick() && workers >= 3 && w.units > 3 {
+                        continue;
+                    }
                     explore_workload(&r, &w, workers);
                 }
             }
